@@ -15,21 +15,30 @@ def braceContent : Bytes → Option (Bytes × Bytes)
   | [] => none
   | b :: rest => if b = 125 then some ([], rest) else (braceContent rest).map (fun (c, r) => (b :: c, r))
 
-def paramOf (content : Bytes) : Option Part :=
-  if content.isEmpty || content.contains 123 then none else
-  let (name, cons) : Bytes × Option Bytes :=
-    match content.idxOf? 58 with
-    | some p => (content.take p, some (content.drop (p + 1)))
-    | none => (content, none)
+/-- name and optional constraint: split at the first `:` -/
+def splitColon (content : Bytes) : Bytes × Option Bytes :=
+  match content.idxOf? 58 with
+  | some p => (content.take p, some (content.drop (p + 1)))
+  | none => (content, none)
+
+/-- a parameter from its name text (with optional leading `*`) and optional constraint text: both non-empty and free
+of `: * { } ( ) /` -/
+def paramCore (name : Bytes) (cons : Option Bytes) : Option Part :=
   if name.isEmpty then none else
   let wild := name.head? == some 42
   let name := if wild then name.drop 1 else name
-  if name.isEmpty || name.any (invalidNameChars.contains ·) then none else
+  if wild && name.isEmpty then none else
+  if name.any (invalidNameChars.contains ·) then none else
   match cons with
   | some c =>
-    if c.isEmpty || c.any (invalidNameChars.contains ·) then none
+    if c.isEmpty then none
+    else if c.any (invalidNameChars.contains ·) then none
     else some (.par (if wild then .wildC else .dynC) { name := name, cons := c })
   | none => some (.par (if wild then .wild else .dyn) { name := name })
+
+/-- the text between the braces: `name`, `*name`, `name:constraint`, `*name:constraint` -/
+def paramOf (content : Bytes) : Option Part :=
+  if content.isEmpty then none else paramCore (splitColon content).1 (splitColon content).2
 
 /-- decode one expansion (after the leading-slash test): parameters may not touch, names may not repeat -/
 def decodeLoop : Nat → Bytes → Bool → List Bytes → Option (List Part)
